@@ -43,6 +43,8 @@ func (g *gen) idValue() any {
 		return []any{nil, true, []any{}, map[string]any{}, false}[g.rng.Intn(5)] // not indexable
 	case 2, 3:
 		return g.rng.Pick(idStrPool)
+	case 4:
+		return "dup"
 	default:
 		g.idSeq++
 		return "i" + strconv.Itoa(g.idSeq%7)
@@ -326,6 +328,15 @@ func (g *gen) history(maxSteps int) string {
 			if len(set) > 0 && g.rng.Chance(9, 10) {
 				ids := sortedKeys(boolMap(set))
 				id = ids[g.rng.Intn(len(ids))]
+				if g.rng.Chance(1, 3) {
+					// prefer an id that more than one object carries (answer: ambiguous)
+					for _, c := range ids {
+						if idCandidates(cfg, c) > 1 {
+							id = c
+							break
+						}
+					}
+				}
 			}
 			if strings.Contains(id, "..") {
 				id = "x"
